@@ -107,6 +107,11 @@ func shortFrame(c *sim.Ctx) []byte {
 		}
 	}
 	f, _ := ref.Encode(a)
+	if len(f) <= 10 && t.Bool(1, 3) {
+		// a multi-byte (non-minimal) remaining length, so that the exhaustive
+		// sweep also splits inside the header's variable byte integer
+		f = overlongRL(f, 1+t.Int(2))
+	}
 	if len(f) > 12 {
 		// cannot happen with the bounds above; keep the invariant explicit
 		panic(fmt.Sprintf("shortFrame produced %d bytes", len(f)))
